@@ -396,6 +396,25 @@ def _kept_alive(facts, preds: dict, entry_cx: str, entry_node: ast.AST, allow_no
     return False
 
 
+def _paths_keep_alive(f: FuncInfo, ret: ast.Return, preds: dict, allow_none: bool) -> bool:
+    """Path-wise variant of _kept_alive for a `return <local>`: on every syntactic path to the return either the local was
+    found None (when allowed) or the expiry predicate was evaluated true on it.  Needed when the two cases are separated
+    by nested ifs: the must-facts at the merge point no longer carry the disjunction."""
+    v = ret.value
+    if not isinstance(v, ast.Name):
+        return False
+    name = v.id
+    pcs = sem.path_conditions(f.node, ret)
+    if not pcs:
+        return False
+    for pc in pcs:
+        none = allow_none and (f"is(None,{name})" in pc or f"!truthy({name})" in pc)
+        alive = any(a.startswith("truthy(") and any(f".{pn}(" in a for pn in preds) and (f"({name}," in a or f"({name})" in a or f",{name}" in a) for a in pc)
+        if not (none or alive):
+            return False
+    return True
+
+
 def _refresh_filters(ctx, P, rt: FuncInfo, preds: dict) -> tuple:
     """refresh_table re-binds the table to {k: v for k, v in <table>.items() if <predicate>(v, now)}."""
     fl = ctx.flows.get(rt)
@@ -445,7 +464,7 @@ def _answers_only_alive(ctx, P, f: FuncInfo, preds: dict) -> tuple:
             if isinstance(alt, ast.Call) and isinstance(alt.func, ast.Attribute) and alt.func.attr in ("get", "pop") \
                     and sem.cx(alt.func.value) == "self.loc_t":
                 n += 1
-                if not _kept_alive(st.facts, preds, sem.cx(alt), alt, True):
+                if not _kept_alive(st.facts, preds, sem.cx(alt), alt, True) and not _paths_keep_alive(f, s, preds, True):
                     return False, f"`{pretty(unparse(alt))[:50]}` is returned without the predicate"
     # entries collected into a result list
     for c in P.calls_in(f):
